@@ -54,6 +54,18 @@ CHECKS.update({
          "events are delivered by direct calls (no fsnotify, no timing); sequences enumerated by forking, the solver is idle here; legacy parser stubbed in symbolic runs", "4 C19"),
 })
 
+SQL_NOTE = "the real sql.Persister / sql.Traverser run on a database model: the pop boundary is overridden and the SQL text and arguments produced by keto are parsed and evaluated against K row slots with symbolic content (two networks); the behaviour of the real database engines is an assumption encoded in the model; no native replay"
+CHECKS.update({
+ "C04": ("one inductive step: from an arbitrary symbolic table, one write operation with symbolic names (create, delete, delete-by-query, transact) through the real Persister, then the stored state is compared slot by slot with a multiset model and a listing with an arbitrary query (real GetRelationTuples/ExistsRelationTuples, whereQuery, buildInsert, buildDelete) is compared with the model as multisets by solver-decided counting formulas",
+         SQL_NOTE, "4 C04"),
+ "C05": ("every terminal database operation of a transact/create/delete request (1st..3rd) may fail and one relationship may lack its subject at any position: on error the table equals the pre-state slot by slot, no statement bypasses the open transaction; chunk-spanning requests (3001 inserts, 101 deletes) with the first or second statement failing",
+         SQL_NOTE + "; isolation from concurrent readers is reduced to 'all statements go through the open transaction'", "4 C05"),
+ "C06": ("tables hold rows of two networks with symbolic network ids: every write under network A leaves the rows of network B unchanged (formula per slot), listings never return them, and the real subject-set-expansion and rewrite traversals (raw SQL with EXISTS sub-select) return exactly what a specification computes from network A's rows",
+         SQL_NOTE, "4 C06"),
+ "C07": ("arbitrary table, symbolic query and symbolic page size 0..K+1: following next_page_token through the real keyset pagination with one interleaved insert or delete returns every relationship that existed for the whole iteration at least once and nothing more often than stored, pages never exceed the size, tokens end, malformed tokens are rejected",
+         SQL_NOTE, "4 C07"),
+})
+
 NOT_APPLICABLE = {}
 
 def main():
